@@ -800,11 +800,14 @@ def fx_host(position, expr):
         b["delay"] = expr
     elif position == "retry_when":
         b["retry"] = {"count": 1, "when": expr}
-        trig = {"kind": "complete", "task": "b", "only_if_status": list(("running", "resuming", "pausing", "canceling"))}
+        trig = {"kind": "complete", "task": "b", "statuses": ["succeeded", "failed"],
+                "only_if_status": list(("running", "resuming", "pausing", "canceling"))}
     elif position == "retry_count":
         b["retry"] = {"count": expr}
+        trig = {"kind": "dispatch", "task": "b", "at_ack": True}
     elif position == "retry_delay":
         b["retry"] = {"count": 1, "delay": expr}
+        trig = {"kind": "dispatch", "task": "b", "at_ack": True}
     elif position == "when":
         b["next"] = [N(expr, "c")]
         trig = {"kind": "complete", "task": "b", "transition": True}
@@ -839,7 +842,7 @@ def fx_all(tier):
         e = BAD_EXPRS["zero_division"][lang]
         lw = loop_wf(2, 1)
         lw["tasks"]["l0"]["input"] = {"p": e.replace("ctx(n) - 1", "ctx(n) - 1").replace("ctx('n') - 1", "ctx('n') - 1")}
-        meta = {"trigger": {"kind": "dispatch", "task": "l0", "iteration": 2}, "position": "task_input_loop",
+        meta = {"trigger": {"kind": "dispatch", "task": "l0", "when_ctx": {"n": 1}}, "position": "task_input_loop",
                 "kind": "zero_division", "lang": lang}
         out.append(scn("FX/loop-task_input-%s" % lang, lw, "FX", meta=meta))
     # undefined variable at a join: published only on the success path of one branch
@@ -853,4 +856,20 @@ def fx_all(tier):
         meta = {"trigger": {"kind": "dispatch", "task": "j", "needs_failed": "b"}, "position": "task_input_join",
                 "kind": "undefined_variable", "lang": lang}
         out.append(scn("FX/join-undefined-%s" % lang, wf, "FX", meta=meta))
+    return out
+
+
+def f4_result(tier):
+    """with-items task whose result list is published and read by a successor."""
+    out = []
+    for n in (1, 2, 3):
+        for k in (None, 1, 2):
+            t = T(action="core.echo", input={"message": "<% item() %>"})
+            t["with"] = {"items": "<% ctx(xs) %>"}
+            if k:
+                t["with"]["concurrency"] = k
+            t["next"] = [N(S, "u", publish=[("r", "<% result() %>")])]
+            wf = WF({"t": t, "u": T()}, input=["xs"], vars=[{"r": None}])
+            out.append(scn("F4/result-n%d-k%s" % (n, k), wf, "F4",
+                           outcomes={"*": [["succeeded", "$uniq"]]}, inputs={"xs": list(range(n))}))
     return out
